@@ -50,7 +50,7 @@ radius_km_exact, radius_argument = P.radius_km_exact, P.radius_argument
 PinnedShuffle = P.PinnedShuffle
 
 
-def run_query(build, query, config):
+def run_query(build, query, config, ctx=None):
     """-> (pairs, distances or None, effective permutation or None)"""
     from typhon.geographical import GeoIndex
     kwargs = {}
@@ -66,17 +66,32 @@ def run_query(build, query, config):
     elif sh.get("explicit_true"):
         kwargs["shuffle"] = True
     r = radius_argument(config["radius"])
+    given = [build[0].copy(), build[1].copy(), query[0].copy(),
+             query[1].copy()]
     with PinnedShuffle(sh):
-        index = GeoIndex(build[0].copy(), build[1].copy(), **kwargs)
+        index = GeoIndex(given[0], given[1], **kwargs)
         if config["return_distance"]:
-            pairs, dist = index.query(query[0].copy(), query[1].copy(), r)
+            pairs, dist = index.query(given[2], given[3], r)
         else:
-            pairs = index.query(query[0].copy(), query[1].copy(), r=r,
+            pairs = index.query(given[2], given[3], r=r,
                                 return_distance=False)
             dist = None
         perm = None if index.shuffler is None else \
             [int(x) for x in index.shuffler]
+    if ctx is not None:
+        inputs_unchanged(ctx, given, [build[0], build[1], query[0],
+                                      query[1]], config)
     return pairs, dist, perm
+
+
+def inputs_unchanged(ctx, given, originals, config):
+    names = ("build lat", "build lon", "query lat", "query lon")
+    for name, arr, orig in zip(names, given, originals):
+        same = arr.dtype == orig.dtype and arr.shape == orig.shape \
+            and np.array_equal(arr, orig)
+        ctx.check(same, "input/modified", lambda: (
+            "GeoIndex / query changed the %s array it was given: %r -> %r "
+            "(config %r)" % (name, orig[:10], arr[:10], config)))
 
 
 def compare(ctx, tag, config, pairs, dist, ref, must, may, kind, describe):
@@ -153,7 +168,8 @@ def check_query(case, ctx):
                                            query[1], kind)
         ref = refs[kind]
         r = radius_km_exact(config["radius"])
-        band = S.band_km(r, ref, kind)
+        band = S.band_km(r, ref, kind) \
+            + S.LD(P.radius_rel_slack(config["radius"])) * r
         must = ref < r - band
         may = ref <= r + band
         n_exp = int(np.count_nonzero(must))
@@ -165,7 +181,7 @@ def check_query(case, ctx):
                         case["build"]["lat"][:20], case["build"]["lon"][:20],
                         case["query"]["lat"][:20], case["query"]["lon"][:20]))
 
-        pairs, dist, perm = run_query(build, query, config)
+        pairs, dist, perm = run_query(build, query, config, ctx)
         tag = "" if config["return_distance"] else "/return_distance=False"
         compare(ctx, tag, config, pairs, dist, ref, must, may, kind, describe)
 
@@ -179,6 +195,12 @@ def check_query(case, ctx):
         rad = config["radius"]
         if rad["style"] == "number":
             ctx.label("units-number")
+            if rad.get("np_type"):
+                ctx.label("radius-np-" + rad["np_type"])
+                if rad["np_type"] in ("int16", "uint16") \
+                        and rad["value"] * 1000 > P.NP_INT_TYPES[
+                            rad["np_type"]]:
+                    ctx.label("radius-np-16bit-overflows-in-metres")
         else:
             ctx.label("units-" + (UNIT_CLASS[rad["unit"]] if rad["unit"]
                                   else "bare-string"))
@@ -216,11 +238,21 @@ def check_query(case, ctx):
             for pm in itertools.permutations(range(nb)):
                 cfg = dict(config)
                 cfg["shuffle"] = {"mode": "perm", "perm": list(pm)}
-                pairs, dist, _ = run_query(build, query, cfg)
+                pairs, dist, _ = run_query(build, query, cfg, ctx)
                 compare(ctx, tag, cfg, pairs, dist, ref, must, may, kind,
                         lambda cfg=cfg: "permutation %r\n%s" % (
                             cfg["shuffle"]["perm"], describe()))
 
+    if case.get("meridional"):
+        ctx.label("meridional")
+        if must.any() and config["metric_arg"] != "haversine":
+            dlat = np.abs(build[0][:, None] - query[0][None, :])
+            arc_deg = float(r / S.radius_km()) * 180.0 / math.pi
+            if (dlat[must] > arc_deg).any():
+                ctx.label("meridional-pair-beyond-arc-band")
+            if query[0].min() > build[0].max() + arc_deg \
+                    or query[0].max() < build[0].min() - arc_deg:
+                ctx.label("meridional-all-queries-beyond-arc-band")
     # geometry labels
     blat, blon = case["build"]["lat"], case["build"]["lon"]
     qlat, qlon = case["query"]["lat"], case["query"]["lon"]
@@ -253,8 +285,11 @@ def radius_specs(r_nominal=None):
         if r_nominal is None:
             r = draw(st.one_of(
                 st.floats(-3.0, math.log10(20000.0)).map(lambda e: 10.0 ** e),
+                st.floats(-3.0, math.log10(20000.0)).map(lambda e: 10.0 ** e),
                 st.sampled_from([0.001, 0.05, 1.0, 5.0, 100.0, 1000.0,
-                                 5000.0, 12000.0, 20000.0])))
+                                 5000.0, 12000.0, 20000.0]),
+                st.integers(1, 150).map(float),
+                st.integers(1, 20000).map(float)))
         else:
             r = r_nominal
         style = draw(st.sampled_from(["number", "number", "space", "space",
@@ -270,8 +305,13 @@ def radius_specs(r_nominal=None):
         value = min(value, float("%.6g" % (20000.0 * den / num)))
         as_int = style == "number" and value.is_integer() and draw(
             st.booleans())
-        return {"value": value, "unit": unit, "style": style,
+        spec = {"value": value, "unit": unit, "style": style,
                 "as_int": as_int}
+        if style == "number" and draw(st.sampled_from([False, True])):
+            # the number as NumPy scalar (same reference radius)
+            spec["np_type"] = draw(st.sampled_from(
+                sorted(P.np_scalar_types(value))))
+        return spec
     return build()
 
 
@@ -407,6 +447,9 @@ def check_rangetree(case, ctx):
     n_exp = int(np.count_nonzero(must))
     if n_exp == 0:
         ctx.label("rangetree-empty")
+    if n_exp == 1 and sh["mode"] == "perm" and sh["perm"][0] != 0 \
+            and must[sh["perm"][0], 0] and np.count_nonzero(may) == 1:
+        ctx.label("rangetree-only-00-moved")
     if n_exp and n_exp < must.size:
         ctx.nontrivial = True
 
@@ -426,8 +469,171 @@ def rangetree_cases(draw):
         sh = {"mode": "seed", "seed": draw(st.integers(0, 2 ** 32 - 1))}
     else:
         sh = {"mode": "off"}
+    if len(build) >= 2 and draw(st.sampled_from([False, False, True])):
+        # exactly one hit: query 0 with the build point that the shuffle
+        # moves to slot 0 (and that is not point 0)
+        r = draw(st.sampled_from([0.25, 1.0, 3.0]))
+        q0 = draw(st.integers(-12, 12)) / 4.0
+        j = draw(st.integers(1, len(build) - 1))
+        far = 2.0 * r + 10.0
+        build = [q0 + far * (i + 1) * (1 if i % 2 else -1)
+                 for i in range(len(build))]
+        build[j] = q0 + draw(st.sampled_from([0.0, r / 2.0, -r / 2.0]))
+        query = [q0] + [q0 + far * (len(build) + 2 + i) + r * 3
+                        for i in range(draw(st.integers(0, 2)))]
+        sh = {"mode": "perm",
+              "perm": [j] + [i for i in range(len(build)) if i != j]}
     return {"build": build, "query": query, "r": r, "shuffle": sh,
             "tree": draw(st.sampled_from([None, "Ball", "KD"]))}
+
+
+# --------------------------------------------------------------------------
+# meridional pairs just inside a large chord radius
+# --------------------------------------------------------------------------
+@st.composite
+def meridional_cases(draw):
+    """One tight build cluster and 1-3 query points that are ALL displaced
+    (nearly) along the meridian, in the same direction, by a chord just
+    below (some just above) a large radius: for the chord metric the
+    latitude difference of such a pair exceeds r / R, the arc the same
+    length would span.  Also across the pole."""
+    r = draw(st.one_of(
+        st.floats(3.0, math.log10(12500.0)).map(lambda e: 10.0 ** e),
+        st.sampled_from([1000.0, 2000.0, 5000.0, 10000.0])))
+    radius = draw(radius_specs(r))
+    r_km = float(radius_km_exact(radius))
+    metric = draw(st.sampled_from(["minkowski"] * 4 + ["haversine"]))
+    kind = "arc" if metric == "haversine" else "chord"
+    lat0 = draw(st.one_of(st.floats(-89.0, 89.0), P.latitudes()))
+    lon0 = draw(P.longitudes())
+    nb = draw(st.integers(1, 4))
+    blat, blon = [lat0], [lon0]
+    for _ in range(nb - 1):
+        la, lo = S.destination(lat0, lon0, draw(st.sampled_from(
+            [90.0, 270.0, 90.0, 270.0, 0.0, 180.0])),
+            draw(st.sampled_from([0.0, 1e-6, 1e-4, 1e-3])))
+        blat.append(la)
+        blon.append(lo)
+    bearing = draw(st.sampled_from([0.0, 180.0]))
+    # measured from the build point that is foremost in that direction
+    k = max(range(nb), key=lambda i: blat[i] if bearing == 0.0 else -blat[i])
+    nq = draw(st.integers(1, 3))
+    factors = [draw(st.sampled_from([1 - 1e-4, 1 - 3e-4, 1 - 1e-3]))]
+    for _ in range(nq - 1):
+        factors.append(draw(st.sampled_from(
+            [1 - 1e-4, 1 - 3e-4, 1 - 1e-3, 1 + 1e-4, 1 + 1e-3, 1.5])))
+    qlat, qlon = [], []
+    for f in factors:
+        ang = P._angle_for(f * r_km, kind)
+        dev = draw(st.sampled_from([0.0, 0.0, 1e-3, -1e-3]))
+        la, lo = S.destination(blat[k], blon[k], bearing + dev, ang)
+        qlat.append(la)
+        qlon.append(lo)
+    config = draw(configs(nb, radius, metric))
+    return {"build": {"lat": blat, "lon": blon},
+            "query": {"lat": qlat, "lon": qlon},
+            "config": config, "variants": [], "all_perms": False,
+            "meridional": True}
+
+
+# --------------------------------------------------------------------------
+# histories of queries on one GeoIndex, query arrays updated in place
+# --------------------------------------------------------------------------
+def check_history(case, ctx):
+    from typhon.geographical import GeoIndex
+    config = case["config"]
+    build = (np.array(case["build"]["lat"], dtype=float),
+             np.array(case["build"]["lon"], dtype=float))
+    kind = "arc" if config["metric_arg"] == "haversine" else "chord"
+    kwargs = {}
+    if config["metric_arg"] is not None:
+        kwargs["metric"] = config["metric_arg"]
+    if config["tree"] is not None:
+        kwargs["tree_class"] = config["tree"]
+    if config["leaf_size"] is not None:
+        kwargs["leaf_size"] = config["leaf_size"]
+    if config["shuffle"]["mode"] == "off":
+        kwargs["shuffle"] = False
+    given_build = [build[0].copy(), build[1].copy()]
+    with PinnedShuffle(config["shuffle"]):
+        index = GeoIndex(given_build[0], given_build[1], **kwargs)
+    refs = {}
+    live = None            # the caller's query buffers
+    ctx.label("history", "history-%d-queries" % len(case["steps"]))
+    if kind == "arc":
+        ctx.label("haversine")
+    for k, step in enumerate(case["steps"]):
+        qset = case["queries"][step["q"]]
+        qlat = np.array(qset["lat"], dtype=float)
+        qlon = np.array(qset["lon"], dtype=float)
+        if step["inplace"] and live is not None \
+                and live[0].shape == qlat.shape:
+            live[0][:] = qlat        # same ndarray objects, new values
+            live[1][:] = qlon
+            ctx.label("inplace-update" if step["q"] != prev_q
+                      else "same-arrays-again")
+        else:
+            live = [qlat.copy(), qlon.copy()]
+            ctx.label("fresh-arrays")
+        prev_q = step["q"]
+        if step["q"] not in refs:
+            refs[step["q"]] = S.distance_matrix(build[0], build[1], qlat,
+                                                qlon, kind)
+        ref = refs[step["q"]]
+        r = radius_km_exact(step["radius"])
+        band = S.band_km(r, ref, kind) \
+            + S.LD(P.radius_rel_slack(step["radius"])) * r
+        must = ref < r - band
+        may = ref <= r + band
+        arg = radius_argument(step["radius"])
+        if step["return_distance"]:
+            pairs, dist = index.query(live[0], live[1], arg)
+        else:
+            pairs = index.query(live[0], live[1], arg, return_distance=False)
+            dist = None
+        inputs_unchanged(ctx, given_build + live,
+                         [build[0], build[1], qlat, qlon], config)
+
+        def describe(k=k, step=step, r=r):
+            return ("query %d of the history on one GeoIndex: %r radius_km="
+                    "%.12g\nconfig=%r\nbuild=%r\nqueries=%r\nsteps=%r" % (
+                        k, step, float(r), config, case["build"],
+                        case["queries"], case["steps"]))
+        tag = "" if step["return_distance"] else "/return_distance=False"
+        compare(ctx, tag, config, pairs, dist, ref, must, may, kind, describe)
+        n_exp = int(np.count_nonzero(must))
+        if n_exp and n_exp < must.size:
+            ctx.nontrivial = True
+
+
+@st.composite
+def history_cases(draw):
+    radius = draw(radius_specs())
+    r_km = float(radius_km_exact(radius))
+    metric = draw(st.sampled_from(["minkowski", "haversine"]))
+    kind = "arc" if metric == "haversine" else "chord"
+    cloud = draw(P.clouds(r_km, None, n_sets=2, metric=kind, allow_nan=False,
+                          allow_far=False, sizes=[(1, 20), (1, 8)]))
+    b, q0 = cloud["sets"]
+    queries = [q0]
+    for _ in range(draw(st.integers(1, 3))):
+        f = draw(st.sampled_from([0.5, 1 - 1e-3, 1 + 1e-3, 3.0, 10.0]))
+        queries.append(P.shifted(q0, f * r_km, draw(st.sampled_from(
+            P.BEARINGS + [45.0])), 0))
+    if draw(st.booleans()):
+        queries.append({k: v[::-1] for k, v in q0.items()})
+    config = draw(configs(len(b["lat"]), radius, metric))
+    steps = []
+    for _ in range(draw(st.integers(2, 5))):
+        steps.append({
+            "q": draw(st.integers(0, len(queries) - 1)),
+            "inplace": draw(st.sampled_from([True, True, True, False])),
+            "radius": draw(st.one_of(st.just(radius), st.just(radius),
+                                     respell(radius))),
+            "return_distance": draw(st.sampled_from([True] * 4 + [False]))})
+    return {"build": {"lat": b["lat"], "lon": b["lon"]},
+            "queries": [{"lat": q["lat"], "lon": q["lon"]} for q in queries],
+            "config": config, "steps": steps}
 
 
 def suites(tier):
@@ -440,4 +646,8 @@ def suites(tier):
               exhaustive=True),
         Suite("rangetree", check_rangetree, strategy=rangetree_cases(),
               examples={"quick": 100, "thorough": 2000}),
+        Suite("meridional", check_query, strategy=meridional_cases(),
+              examples={"quick": 40, "thorough": 1000}),
+        Suite("query-histories", check_history, strategy=history_cases(),
+              examples={"quick": 60, "thorough": 1500}),
     ]
